@@ -88,6 +88,8 @@ def drv_grad(ctx, k, rng):
     derivative = P.make_derivative(rng, stock, pick(rng, ["european", "lookback", "european", "forward_start", "european_binary"]),
                                    n_steps=int(pick(rng, [2, 3, 5])), clauses=False)
     crit, ck = make_criterion(rng)
+    if k % 8 == 3:
+        crit, ck = QuadraticCVaR(10.0), "qcvar"  # deterministic coverage: short-dated hedge P&L is concentrated (mean(max - x) < 1/(2 lam))
     if ck == "iso":
         derivative.add_clause("shift", lambda d, p: p - 3.0)  # keeps portfolio - payoff positive (domain of the isoelastic utility)
     hk = pick(rng, ["ul", "ul", "ul+eu", "none"])
@@ -106,10 +108,14 @@ def drv_grad(ctx, k, rng):
     elif extra == "max" and option:
         feats = feats + ["max_log_moneyness"]
     prev = bool(rng.random() < 0.5)
+    if k % 8 == 5:
+        prev = False  # deterministic coverage: vectorised branch with an output activation that saves its output
     if prev:
         feats = feats + ["prev_hedge"]
     n_in = len(feats) + (n_h - 1 if prev else 0)
     model, mk, oa = make_model(rng, n_in, n_h, prev)
+    if k % 8 == 5:
+        model, mk, oa = MultiLayerPerceptron(in_features=n_in, out_features=n_h, n_layers=1, n_units=4, activation=torch.nn.Tanh(), out_activation=torch.nn.Tanh()), "mlp", "tanh"
     model.to(F64)
     if oa in ("tanh", "sigmoid") and not prev:
         ctx.branch("output_activation.saves_output")
